@@ -268,6 +268,35 @@ def specCheck (st : St) (op : Op) (impl : String) : Option (String × String) :=
           some ((match k with
             | .offset _ => "poll-offset" | .timestamp _ => "poll-timestamp" | .first => "poll-first"
             | .last => "poll-last" | .next => "poll-next"), exp)
+  | .poll cn si ti none c k count _ =>
+    -- a group member polling without naming a partition: judge the content on the partition the
+    -- implementation says it served, and that this partition is in the member's share (model state)
+    if count = 0 || !c.grp then none else
+    match (impl.splitOn " ") with
+    | "ok" :: pidS :: _ =>
+      match pidS.toNat? with
+      | none => none
+      | some 0 => none
+      | some pid =>
+        match resolvePart st.sys si ti pid with
+        | none => some ("group-poll-share", s!"partition {pid} does not exist")
+        | some (key, _) =>
+          let inShare := match st.sys.findStream si with
+            | .ok s => (match s.findTopic ti with
+              | .ok t => (match find? t.groups c.id with
+                | some g => (match g.members.find? (fun m => m.id = st.sys.clientOf cn) with
+                  | some m => m.share.contains pid
+                  | none => false)
+                | none => false)
+              | .error _ => false)
+            | .error _ => false
+          if !inShare then some ("group-poll-share", s!"partition {pid} is not in the member's share") else
+          match st.spec.get key with
+          | none => none
+          | some sp =>
+            let exp := showOut st.enc (.polled pid sp.cur (specPoll sp c k count))
+            if exp == impl then none else some ("poll-next", exp)
+    | _ => none
   | .getOffset _ si ti (some pid0) c =>
     let pid : Option Nat := some pid0
     match resolvePart st.sys si ti (pid.getD 1) with
@@ -407,6 +436,31 @@ def retentionCheck (st : St) (effs : List Effect) : List String :=
           some s!"SPEC-VIOL {st.line} class=retention-illegal partition={k.1}/{k.2.1}/{k.2.2} removed {n} messages not all expired"
     | _ => none)
 
+/-- C08 oracles on the implementation's own `group` answer `ok id:name:n:m m1=p+p,m2=…`: with at least
+one member every partition 1..n is in exactly one share, shares hold only existing partitions and
+differ in size by at most one -/
+def groupCheck (st : St) (impl : String) : List String :=
+  match impl.splitOn " " with
+  | "ok" :: hd :: rest =>
+    match hd.splitOn ":" with
+    | [_, _, n, m] =>
+      match n.toNat?, m.toNat? with
+      | some n, some m =>
+        let shares : List (List Nat) := if m = 0 then [] else
+          ((rest.headD "").splitOn ",").map (fun e => (((e.splitOn "=").getD 1 "").splitOn "+").filterMap (·.toNat?))
+        if m = 0 then [] else
+        let all := shares.flatten
+        let cover := (List.range n).all (fun i => (all.filter (· == i + 1)).length == 1)
+        let existing := all.all (fun p => 1 ≤ p && p ≤ n)
+        let lens := shares.map List.length
+        let balanced := lens.all (fun a => lens.all (fun b => a ≤ b + 1))
+        (if shares.length != m then [s!"SPEC-VIOL {st.line} class=group-members impl={impl}"] else []) ++
+        (if !cover || !existing then [s!"SPEC-VIOL {st.line} class=group-cover every partition must be in exactly one share, impl={impl}"] else []) ++
+        (if !balanced then [s!"SPEC-VIOL {st.line} class=group-balance shares differ by more than one, impl={impl}"] else [])
+      | _, _ => []
+    | _ => []
+  | _ => []
+
 def stepLine (st : St) (raw : String) : St × List String :=
   let st := { st with line := st.line + 1 }
   let (opS, implS) := match raw.splitOn "\t" with
@@ -453,6 +507,7 @@ def stepLine (st : St) (raw : String) : St × List String :=
         | .topicInfo si _ => (match st.sys.findStream si with
             | .ok s => figuresCheck st s.id itxt
             | .error _ => [])
+        | .groupInfo .. => groupCheck st itxt
         | _ => [])
     let isMut := !(toks.headD "" == "poll" && toks.getLast? == some "0") &&
       !(["topic", "stats", "get-offset", "clock", "streams", "stream", "topics", "groups", "group", "me"].contains (toks.headD ""))
